@@ -109,6 +109,9 @@ type c14SubScen struct {
 	SetID     uint32        `json:"set_id,omitempty"`
 	SubID     uint32        `json:"sub_id,omitempty"` // Subscription Identifier of the SUBSCRIBE (v5)
 	PubRetain bool          `json:"pub_retain,omitempty"`
+	// PreRetained: retained QoS 2 messages exist on the original and the rewritten topic of every entry before the
+	// SUBSCRIBE; what is replayed must follow the hook's decision (filter, QoS, identifier; nothing when rejected)
+	PreRetained bool `json:"pre_retained,omitempty"`
 }
 
 type c14UnsubScen struct {
@@ -437,7 +440,7 @@ func genC14Sub(setID bool) func(t *rapid.T) c14DecScen {
 		if setID {
 			s.V = 5
 		}
-		sub := &c14SubScen{PubRetain: c14Bool(t, "pub_retain")}
+		sub := &c14SubScen{PubRetain: c14Bool(t, "pub_retain"), PreRetained: c14Bool(t, "pre_retained")}
 		s.Sub = sub
 		n := rapid.IntRange(1, 3).Draw(t, "nentries")
 		for i := 0; i < n; i++ {
@@ -542,6 +545,20 @@ func runC14Sub(s c14DecScen, c *ev.Case) *ev.Violation {
 	defer pub.Kill()
 	if err := subscribeSentinel(sub); err != nil {
 		return harnessErr("%v", err)
+	}
+
+	if sc.PreRetained {
+		c.Label("subscribe_with_retained_messages")
+		k := uint16(50)
+		for i := range sc.Entries {
+			for _, pfx := range []string{"s", "r"} {
+				topic := c14Topic(pfx, i)
+				k++
+				if _, err := pub.Publish(&mw.Packet{Topic: topic, QoS: 2, Retain: true, PacketID: k, Payload: []byte("kept-" + topic)}); err != nil {
+					return ev.Violf("C14.ack", "retained publish not acknowledged: %v", err)
+				}
+			}
+		}
 	}
 
 	// the SUBSCRIBE under test
@@ -654,6 +671,37 @@ func runC14Sub(s c14DecScen, c *ev.Case) *ev.Violation {
 	}
 	if !eqStrs(ids(got), ids(installed)) {
 		return ev.Violf("C14.subscribe-setid", "subscription identifiers in the store %v, decided %v (SUBSCRIBE carried %d, hook SetID %d)", ids(got), ids(installed), sc.SubID, sc.SetID).With(feat...)
+	}
+
+	// the retained messages replayed by the SUBSCRIBE follow the decision
+	if sc.PreRetained {
+		if err := sentinelBarrier(b, []*fixture.Client{sub}, "replay"); err != nil {
+			return ev.Violf("C14.barrier", "%v", err)
+		}
+		var wantR []c14Msg
+		for i := range sc.Entries {
+			for _, pfx := range []string{"s", "r"} {
+				topic := c14Topic(pfx, i)
+				for _, sp := range installed {
+					if topicref.Match(topic, sp.Filter) {
+						wantR = append(wantR, c14Msg{topic, "kept-" + topic, minB(2, sp.QoS), false, c14IDs(sp.ID)})
+					}
+				}
+			}
+		}
+		recvR := c14Received(sub)
+		for i := range recvR {
+			recvR[i].Retain = false // the RETAIN flag of a replay is C07's business (F-retained-replay-flag)
+		}
+		if g, w := c14MsgKeys(recvR, false), c14MsgKeys(wantR, false); !eqStrs(g, w) {
+			return ev.Violf("C14.subscribe-replay", "retained messages replayed by the SUBSCRIBE: received %v, the decided subscriptions %v imply %v", g, noID(installed), w).With(feat...)
+		}
+		// Subscription identifiers on a retained replay: no listed property speaks about them (the broker sends none,
+		// with or without a hook); counted, not asserted.
+		if v5 && !eqStrs(c14MsgKeys(recvR, true), c14MsgKeys(wantR, true)) {
+			c.Label("replay_without_subscription_identifier")
+		}
+		c.Count("subscribe_replays", len(wantR))
 	}
 
 	// delivery follows the decision: pub publishes QoS 2 to the original and the rewritten
